@@ -625,6 +625,30 @@ func (fr *Frame) assumeRange(v *Val) {
 	}
 }
 
+// allocated: references held by a value were allocated before the current point (state st).
+func (fr *Frame) allocated(v *Val, st *State) {
+	if fr.dry || v == nil || v.T == nil || v.S == "" {
+		return
+	}
+	if f := fr.u.allocFormula(v.S, v.T, st); f != "true" {
+		fr.u.assert(f)
+	}
+}
+
+func (u *Unit) allocFormula(term string, t types.Type, st *State) string {
+	wm := u.comp(st, "WM", "Int")
+	switch types.Unalias(t).Underlying().(type) {
+	case *types.Pointer, *types.Map, *types.Chan:
+		if u.S.sortOf(t) != "Int" {
+			return "true"
+		}
+		return "(< " + term + " " + wm + ")"
+	case *types.Slice:
+		return "(< (sl_arr " + term + ") " + wm + ")"
+	}
+	return "true"
+}
+
 // rangeFormula gives the type invariant of a term of Go type t (integer ranges, slice shape).
 func (u *Unit) rangeFormula(term string, t types.Type, depth int) string {
 	t = types.Unalias(t)
